@@ -85,6 +85,16 @@ func init() {
 		"verifUint32": nondetInt(32),
 		"verifUint16": nondetInt(16),
 		"verifByte":   nondetInt(8),
+		"verifMathInt64": func(w *Worker, _ *frame, fn *ssa.Function, a []Value) Value {
+			name := w.concStr(a[0], "nondet name")
+			if w.P.Concrete {
+				return w.freshVar(name, 64)
+			}
+			v := w.freshVar(name, term.IntW)
+			lo, hi := w.typeRange(types.Typ[types.Int64])
+			w.addPC(w.TF.And(w.TF.IBin(term.OpILe, lo, v), w.TF.IBin(term.OpILe, v, hi)))
+			return v
+		},
 		"verifBool": func(w *Worker, _ *frame, _ *ssa.Function, a []Value) Value {
 			name := w.concStr(a[0], "nondet name")
 			if w.P.Concrete {
